@@ -1178,7 +1178,8 @@ def main():
     import cxx2lean_rx
     import cxx2lean_enc      # mode 4: the encoders (tools/cxx2lean_enc.py)
     import cxx2lean_auth     # mode 5: the credential check (tools/cxx2lean_auth.py)
-    for name, job in cxx2lean_rx.JOBS + [("ENC", cxx2lean_enc.translate_encoders), ("AU", cxx2lean_auth.translate_auth)]:
+    import cxx2lean_router   # mode 6: the decision chain of request_router::handle_request
+    for name, job in cxx2lean_rx.JOBS + [("ENC", cxx2lean_enc.translate_encoders), ("AU", cxx2lean_auth.translate_auth), ("RT", cxx2lean_router.translate_router)]:
         out = os.path.join(OUTDIR, name + ".lean")
         try:
             text = job()
